@@ -14,7 +14,7 @@ from pyvc.engine import Engine, Hooks
 from pyvc.loader import ClassInfo
 from pyvc.ops import F, T, is_none, strip_opt, truth
 from pyvc.state import St
-from pyvc.values import ClassRef, Opt, Ref, Sym, Unsupported, dt_ts, fresh, is_sym, simp
+from pyvc.values import ClassRef, Opt, Ref, Sym, Unsupported, dt_off, dt_ts, fresh, is_sym, simp
 
 from .common import codec_hooks, snapshot, unchanged
 
@@ -234,7 +234,7 @@ def run(chk):
     from .common import per_instance_state_of_modules
     per_instance_state_of_modules(chk, "C20.classes.state_is_per_instance", ['lambda_service'])   # no object created in a class body: instances share no mutable state through the class
     eng = Engine(hooks=codec_hooks())
-    chk.assume("A: ms / 1000 in from_unix_millis is exact (a float division; datetime.fromtimestamp rounds to microseconds); to_unix_millis is integer arithmetic (C20.timestamp.exact_millis)")
+    chk.assume("A: reals for floats; both timestamp conversions are required to be integer arithmetic (C20.timestamp.exact_millis, C20.timestamp.exact_from_millis), so no rounding is assumed away there")
     chk.assume("S: datetime.fromtimestamp(t, tz=UTC).timestamp() == t; datetimes are timezone-aware (instants compared)")
     chk.assume("S: copy.deepcopy yields a structurally equal, unshared copy of dict/list structures")
     chk.assume("inputs are well-typed instances of the declared field types (implicit precondition); enum .value / Enum(value) are inverse (read from the source members)")
@@ -339,6 +339,11 @@ def _replay_ts(inputs):
     return bool(r_.get("confirmed")), r_
 
 
+def _replay_from_ms(inputs):
+    r_ = native("timestamp_from_millis_replay.py", {})
+    return bool(r_.get("confirmed")), r_
+
+
 def timestamp_exactness(chk):
     """to_unix_millis under assumption A is exact on millisecond-aligned instants (C20.*.json.rt.*timestamp).  In doubles it is exact only if no
     value that went through float arithmetic is truncated: provenance of the operand of int() is tracked on the real body."""
@@ -368,6 +373,33 @@ def timestamp_exactness(chk):
                        "an exact conversion uses integer arithmetic on the timedelta since the epoch",
                   regions={"float_product_truncated": z3.BoolVal(bool(tr))}, describe=lambda m: {"instant": "1970-01-01T00:00:01.001Z (aligned) -> 1000"}, replay=_replay_ts,
                   sample="provenance of the operand of int() in to_unix_millis")
+    # the other direction: from_unix_millis(ms) is the instant ms / 1000 EXACTLY.  ms / 1000 evaluated in doubles is the nearest double, and
+    # datetime.fromtimestamp rounds that to microseconds: beyond 2**42 ms (year 2109) the double's spacing exceeds a microsecond and the
+    # result is an instant that to_unix_millis maps to ms - 1.  Sufficient condition: no int / int division feeds fromtimestamp.
+    class H2(type(codec_hooks())):
+        def on_binop(self, eng_, s, node, a, b, result):
+            import ast as _ast
+            if isinstance(node.op, _ast.Div) and is_sym(result, "real"):
+                s.ghost["__rounded_div__"] = s.ghost.get("__rounded_div__", frozenset()) | {result.t.sexpr()}
+
+        def ext_call(self, eng_, s, name, args, kwargs):
+            if name.endswith("fromtimestamp") and args and is_sym(args[0], "real") and args[0].t.sexpr() in s.ghost.get("__rounded_div__", frozenset()):
+                s.ghost["__rounded_instant__"] = True
+            return type(codec_hooks()).ext_call(self, eng_, s, name, args, kwargs)
+    eng2 = Engine(hooks=H2())
+    st2 = St()
+    ms = fresh("int", "ms")
+    q2 = "lambda_service.TimestampConverter.from_unix_millis"
+    chk.function(q2)
+    for k, v, s in eng2.run(eng2.program.func(q2), [ms], st=st2):
+        chk.paths += 1
+        rounded = bool(s.ghost.get("__rounded_instant__"))
+        exact = z3.And(dt_ts(v.t) * 1000 == z3.ToReal(ms.t), dt_off(v.t) == 0) if k == "val" and is_sym(v, "dt") else F
+        chk.prove("C20.timestamp.exact_from_millis", s.pc, z3.And(z3.BoolVal(not rounded), exact),
+                  desc="from_unix_millis(ms) is the UTC instant ms milliseconds after the epoch, computed without a rounded double (ms / 1000 handed to fromtimestamp is the nearest double, "
+                       "rounded again to microseconds: for ms > 2**42 the result is an instant whose millisecond count is ms - 1); exact: epoch + timedelta(milliseconds=ms)",
+                  regions={"float_quotient_rounded": z3.BoolVal(rounded)}, describe=lambda m: {"ms": "8796093022208 + k (instants after 2248-09), e.g. 8796093022211"}, replay=_replay_from_ms,
+                  sample="provenance of the argument of datetime.fromtimestamp in from_unix_millis")
     try:
         r_ = native("timestamp_rounding_replay.py", {})
         chk.notes.append(f"native run for C20.timestamp.exact_millis: confirmed={r_.get('confirmed')}; affected among 50000 aligned instants of 2020-2030: {r_.get('affected_among_50000_aligned_instants_2020_2030')}; cases={str(r_.get('cases'))[:400]}")
